@@ -23,11 +23,12 @@ VARIABLES blk, tid
 
 Atoms(x) == [i \in DOMAIN x |-> [z |-> x[i].z, p |-> x[i].p]]
 AbsI(x) == IF x < 0 THEN -x ELSE x
-InPlaceOp(op) == op \in {"t", "r", "x"}
+InPlaceOp(op) == op \in {"t", "r", "x", "b"}
 Target(st, e) == IF InPlaceOp(e.op) THEN e.obj ELSE Cardinality(DOMAIN st) + 1
 SpecState(st, e) ==
   LET m == st[e.obj] IN
-  CASE e.op = "t" -> InPlace(st, e.obj, TranslateM(m, e.v))
+  CASE e.op = "b" -> st                                   \* guess_bonds: the atoms stay where they are
+    [] e.op = "t" -> InPlace(st, e.obj, TranslateM(m, e.v))
     [] e.op = "r" -> InPlace(st, e.obj, RotateM(m, e.R, e.o))
     [] e.op = "x" -> InPlace(st, e.obj, TransformM(m, e.R, e.v))
     [] e.op = "T" -> NewObj(st, TranslateM(m, e.v))
@@ -36,7 +37,8 @@ SpecState(st, e) ==
     [] e.op = "C" -> NewObj(st, m)
     [] e.op = "M" -> NewObj(st, StripK(MaskM(m, e.keep)))
 EventDomain(st, e) ==
-  /\ e.op \in {"t", "r", "x", "T", "R", "X", "C", "M"} /\ e.obj \in DOMAIN st
+  /\ e.op \in {"t", "r", "x", "T", "R", "X", "C", "M", "b"} /\ e.obj \in DOMAIN st
+  /\ (e.op = "b" => BondDomain(st[e.obj]))
   /\ (e.op \in {"r", "x", "R", "X"} => ProperRotation(e.R))
   /\ (e.op = "M" => Len(e.keep) = Len(st[e.obj]) /\ \E i \in DOMAIN e.keep : e.keep[i])
   /\ \A i \in DOMAIN st[e.obj] : \A k \in Ix : AbsI(st[e.obj][i].p[k]) <= 4000
@@ -54,6 +56,9 @@ Clause(st, e, tri0) ==
   IF Atoms(e.recv) # nst[e.obj] THEN "REJECT ReceiverChanged:" \o e.op ELSE
   IF \E k \in DOMAIN e.others : Atoms(e.others[k].atoms) # nst[e.others[k].id] THEN "REJECT OtherObjectChanged:" \o e.op ELSE
   IF ~DerivedOK(nst[tg], e) THEN "REJECT Derived:" \o e.op ELSE
+  \* guess_bonds / unique_bonds / connected_fragments: the bonds are those of the covalent radii, the fragments its components
+  IF e.op = "b" /\ ~BondsOK(nst[tg], {<<e.bonds[k][1], e.bonds[k][2]>> : k \in DOMAIN e.bonds}) THEN "REJECT Bonds" ELSE
+  IF e.op = "b" /\ Decided(nst[tg]) /\ {{e.frags[k][i] : i \in DOMAIN e.frags[k]} : k \in DOMAIN e.frags} # Fragments(nst[tg]) THEN "REJECT Fragments" ELSE
   \* rigid motions leave the trace of the inertia tensor as it was (x 1024, two units of slack)
   IF e.op # "M" /\ e.full /\ AbsI(e.tri - tri0) > 2 + tri0 \div 1000000 THEN "REJECT InertiaInvariant:" \o e.op ELSE ""
 
